@@ -5,6 +5,7 @@ mod c01;
 mod c02;
 mod c03;
 mod c04;
+mod c05;
 mod common;
 
 fn main() {
@@ -14,6 +15,7 @@ fn main() {
         "C02" => c02::main(),
         "C03" => c03::main(),
         "C04" => c04::main(),
+        "C05" => c05::main(),
         other => {
             println!("INCONCLUSIVE property={other} reason=vh-exec has no check for this property");
             std::process::exit(2);
